@@ -696,6 +696,7 @@ func (c *Ctx) fieldSource(fn *ssa.Function, v ssa.Value, f string, use ssa.Instr
 // deepLeaf: an alternative of a value, as a term of the function the search started in;
 // inFn is the defining instruction when the alternative is a value of that function itself.
 type deepLeaf struct {
+	fromCallee bool // the value is made inside a helper; inFn is the call of that helper
 	term string
 	inFn ssa.Instruction
 }
@@ -733,7 +734,7 @@ func (c *Ctx) deepLeaves(fn *ssa.Function, v ssa.Value, depth int) []deepLeaf {
 								okAll = false
 							}
 							// (where the value comes into being, seen from fn: the call)
-							sub = append(sub, deepLeaf{term: c.substParams(fn, call, t), inFn: call})
+							sub = append(sub, deepLeaf{term: c.substParams(fn, call, t), inFn: call, fromCallee: true})
 						}
 					}
 					if okAll && len(sub) > 0 {
